@@ -59,6 +59,10 @@ def dense_query(kind, n, rng):
         return rng.randn(n + 2, n)
     if kind == 'scaled':
         return np.diag(np.arange(1.0, n + 1.0))
+    if kind == 'partial':      # every second cell only: the overall count is not in the row space (n >= 2)
+        return np.eye(n)[::2]
+    if kind == 'diff':         # differences of neighbouring cells: rows orthogonal to the ones vector
+        return (np.eye(n) - np.eye(n, k=1))[:-1]
     raise ValueError(kind)
 
 
